@@ -304,6 +304,13 @@ ENTRIES = {
         body="executor::st_executor::ExecutorInner::run", start=calls(r"ScopedLocalKey::set$|ScopedKey::set$"),
         effect=aggregates("executor::ExecutorError", "Panic"), excuse=variant_is({"Ok"}),
         what="a panic caught by the single-threaded run loop is returned as ExecutorError::Panic on every path"),
+    # ---- task wake-ups (C13, C05)
+    "wakers-wake": dict(
+        bodies=r"^executor::task::Task::(wake_by_val|wake_by_ref)$", effect=calls(r"task::Task::wake$"), floor=2,
+        what="every waker entry point performs the wake state update (no path returns without it)"),
+    "wake-updates-state": dict(
+        body="executor::task::Task::wake", effect=calls(r"Atomic\w*::fetch_add$"),
+        what="Task::wake always adds its wake-up to the state word"),
 }
 
 
@@ -437,6 +444,8 @@ def K_last(c):
 COMMIT_GROUPS = {
     "task-release": (r"^executor::task", r"RunOnDrop::new$|UnsafeCell::with_mut$|^std::alloc::dealloc$|ManuallyDrop::drop$",
                      "task memory / future / output release: once the state test selected the releasing branch, the release happens"),
+    "task-wake": (r"^executor::task", r"task::Task::wake$|^std::ops::Fn::call$|Atomic\w*::fetch_(add|sub|and|or|update)$|Atomic\w*::compare_exchange\w*$",
+                  "task wake-up / state transitions: every waker entry point performs its state update and schedules when it must"),
     "executor-drop": (r"^<executor::|^executor::", r"JoinHandle::join$|CancelToken::cancel$|Signal::set$|Slab::drain$|Vec::drain$",
                       "executor shutdown steps"),
     "mailbox-signals": (r"^channel::|^<channel::", r"notify(_one|_all)?$|channel::queue::Queue::(push|pop|close)$",
@@ -542,6 +551,40 @@ def cond_inputs(c):
     return out
 
 
+def decision_blocks(b, effects):
+    """Switch blocks at which it is decided whether one of `effects` (sites of one callee in body b) happens: reachable from the
+    entry, able to reach an effect, and able to reach a return without passing any of them. Covers short-circuit conditions
+    (`if a && b { return }`), where no single edge dominates the effect."""
+    eff_blocks = set(e.b for e in effects)
+    # blocks that can reach an effect (backwards)
+    can_eff = set(eff_blocks)
+    stack = list(eff_blocks)
+    while stack:
+        x = stack.pop()
+        for p in b.pred[x]:
+            if p in b.live_blocks and p not in can_eff:
+                can_eff.add(p)
+                stack.append(p)
+    # blocks that can reach a return without passing an effect (backwards from returns, not crossing effect blocks)
+    can_skip = set()
+    stack = [r for r in b.return_blocks() if r not in eff_blocks]
+    can_skip.update(stack)
+    while stack:
+        x = stack.pop()
+        for p in b.pred[x]:
+            if p in b.live_blocks and p not in can_skip and p not in eff_blocks:
+                can_skip.add(p)
+                stack.append(p)
+    reach = set(b.reachable(0)) | {0}
+    out = []
+    for d in sorted(can_eff & can_skip & reach):
+        if b.blocks[d]["term"]["t"] == "switch":
+            ys = b.succ[d]
+            if any(y in can_eff or y in eff_blocks for y in ys) and any(y in can_skip for y in ys):
+                out.append(d)
+    return out
+
+
 def decision_inputs_today(P, group):
     bodies_rx, effect_rx, _ = COMMIT_GROUPS[group]
     rx = re.compile(bodies_rx)
@@ -550,12 +593,19 @@ def decision_inputs_today(P, group):
     for b in P.all_bodies():
         if not rx.search(b.name) or "::tests" in b.name:
             continue
+        by_callee = {}
         for e in b.calls(effect_rx):
-            k = "%s|%s" % (b.name, K_last(e.callee))
+            by_callee.setdefault(e.callee, []).append(e)
+        for callee, es in by_callee.items():
+            k = "%s|%s" % (b.name, K_last(callee))
             ins = res.setdefault(k, set())
-            sites.setdefault(k, []).append(e)
-            for c in b.conditions(e):
-                ins |= cond_inputs(c)
+            sites.setdefault(k, []).extend(es)
+            for d in decision_blocks(b, es):
+                for y in b.succ[d]:
+                    try:
+                        ins |= cond_inputs(Cond(b, d, y))
+                    except Exception:
+                        ins.add("unknown")
     return res, sites
 
 
